@@ -840,6 +840,12 @@ def _get_lambda_in_stream(
     # for a comma or a closing paren.
     accumulated_tokens = [start_token]
     saw_new_line = False
+    # First the parameter list, which can have commas of its own (`lambda a, b: ...`)
+    for t in t_stream.tokens_till({tokenize.OP: [":"]}):
+        accumulated_tokens.append(t)
+    colon = getattr(t_stream, "last_token", None)
+    if colon is not None and colon.string == ":":
+        accumulated_tokens.append(colon)
     for t in t_stream.tokens_till({tokenize.OP: [",", ")"]}):
         accumulated_tokens.append(t)
         if t.type == tokenize.NEWLINE or t.string == "\n":
